@@ -202,14 +202,15 @@ class C14(Check):
         same call gives on an instance that was never saved."""
         import sparseSpACE.StandardCombi as SC
         from sparseSpACE.GridOperation import Integration
-        from sparseSpACE.Grid import TrapezoidalGrid
         from simcore.env import SimFunction
-        sig = {"strategy": "standard", "fault": "save_crash_restore", "estimator": "none"}
+        from engines import combi_drivers as CD
+        sig = {"strategy": "standard", "fault": "save_crash_restore", "estimator": "none", "grid": cfg.get("grid", "TrapezoidalGrid")}
+        ctx.exc_sig = {"strategy": "standard", "grid": cfg.get("grid", "TrapezoidalGrid")}
         a, b = np.array(cfg["a"], dtype=float), np.array(cfg["b"], dtype=float)
 
         def build():
             f = SimFunction(rk, nnoise=cfg["nnoise"])
-            op = Integration(f=f, grid=TrapezoidalGrid(a=a, b=b, boundary=cfg["boundary"]), dim=cfg["dim"], print_level=100, log_level=100)
+            op = Integration(f=f, grid=CD.make_std_grid(cfg), dim=cfg["dim"], print_level=100, log_level=100)
             sc = SC.StandardCombi(a, b, operation=op, print_level=100, log_level=100)
             for lmin, lmax in cfg["calls"]:
                 sc.perform_operation(lmin, lmax)
@@ -221,7 +222,12 @@ class C14(Check):
         def answers(sc):
             out = [["points", int(sc.get_total_num_points())]]
             if cfg["boundary"]:
-                out.append(["interpolation"] + hexes(sc(P)))
+                try:
+                    out.append(["interpolation"] + hexes(sc(P)))
+                except Exception as e:      # a family that cannot interpolate must fail alike on the restored instance
+                    if cfg.get("grid", "TrapezoidalGrid") == "TrapezoidalGrid":
+                        raise
+                    out.append(["interpolation_raises", type(e).__name__])
             pts, w = sc.get_points_and_weights()
             out.append(["points_and_weights"] + hexes(pts) + hexes(w))
             _, _, res = sc.perform_operation(*cfg["next_call"])
